@@ -4,6 +4,7 @@ import (
 	"fmt"
 	"strconv"
 	"strings"
+	"unicode"
 
 	"verif/ref/mars"
 )
@@ -71,9 +72,15 @@ const (
 	PNoFinalNewline
 	PLastLineComment // the file ends with a comment line (combined with PNoFinalNewline: unterminated comment)
 	PNoEnd           // drop a plain END line ('94 only: END carries no information there)
+	PLongLines       // comment lines and trailing blanks/comments of 4090..70000 bytes (beyond typical I/O buffer sizes)
 )
 
-var PerturbNames = []string{"case", "blanks", "crlf", "comment-lines", "blank-lines", "trailing-comments", "metadata", "no-final-newline", "last-line-comment", "no-end"}
+// NumPerturbations is the number of perturbation bits.
+const NumPerturbations = 11
+
+var longLens = []int{4090, 4095, 4096, 4097, 4100, 8191, 8192, 8193, 65536, 70000}
+
+var PerturbNames = []string{"case", "blanks", "crlf", "comment-lines", "blank-lines", "trailing-comments", "metadata", "no-final-newline", "last-line-comment", "no-end", "long-lines"}
 
 func PerturbSetName(set int) string {
 	var ns []string
@@ -144,6 +151,17 @@ func Perturb(lines []string, set int, d Dialect, r Rand) string {
 		if set&PTrailing != 0 && r.Intn(2) == 0 {
 			l += " ; trailing " + strconv.Itoa(i)
 		}
+		if set&PLongLines != 0 && r.Intn(3) == 0 {
+			n := longLens[r.Intn(len(longLens))]
+			switch r.Intn(3) {
+			case 0:
+				out = append(out, ";"+strings.Repeat("-", n))
+			case 1:
+				l += strings.Repeat(" ", n)
+			default:
+				l += " ;" + strings.Repeat("\u00e9x", n/3)
+			}
+		}
 		out = append(out, l)
 	}
 	if set&PLastLineComment != 0 {
@@ -182,7 +200,9 @@ func AccountLoadFile(text string) Account {
 		if i := strings.IndexByte(line, ';'); i >= 0 {
 			line = line[:i]
 		}
-		fields := strings.FieldsFunc(line, func(r rune) bool { return r == ' ' || r == '\t' || r == '\r' || r == ',' || r == '\v' || r == '\f' })
+		// blanks are whatever Unicode calls white space (a reader that treats U+2028 or U+00A0... as a
+		// blank skips nothing); commas separate as well
+		fields := strings.FieldsFunc(line, func(r rune) bool { return r == ',' || unicode.IsSpace(r) })
 		if len(fields) == 0 {
 			a.Blank++
 			continue
